@@ -715,6 +715,7 @@ func main() {
 	}
 	runHistInt(o, r, nHistInt)
 	runDirected(o, r, aim, c.Thorough())
+	runCpxDirected(o, r, c.Thorough())
 	missing := unregisteredCtors(*repoRoot)
 	nCtors := 0
 	for _, cs := range zeroArgCtors {
